@@ -353,9 +353,8 @@ def check_round(sc: Scenario, fail: set, mode: str, nproc: int) -> tuple[str, st
     spec = sc.spec
 
     def same(p, q) -> bool:
-        c = copy.deepcopy(impl.coords)
-        c.position = np.array(p[0], dtype=float)
-        return bool(sim.test_same(c, np.array(q[0], dtype=float), float(p[1]), float(q[1])))
+        # the stated criterion, evaluated independently in exact arithmetic (the payloads are dyadic)
+        return bool(spec.criterion((np.array(p[0], dtype=float), float(p[1])), (np.array(q[0], dtype=float), float(q[1]))))
 
     exp = expected_events(sc, fail, mode, allowed0, double)
     got = [ev[1] for ev in sim.events]
